@@ -813,6 +813,50 @@ def replay_rx(ob_id, query, words):
 
 
 # ---------------------------------------------------------------------------
+def witness_ob():
+    """Concrete re-confirmation of listed findings that lie outside the symbolic bounds (NFC-unstable input, file I/O)."""
+
+    def run(tier):
+        import asyncio
+        import os
+        import tempfile
+
+        res = {"engine": "xh", "verdict": "confirmed", "paths": 2, "queries": 0, "solver_s": 0.0, "known_findings": [], "replays": [], "reach_witnessed": True}
+        bad, text = _real_roundtrip_fails("\n\u0301")
+        if bad:
+            if kf_active(PROP, "nfc-composes-escape-letter"):
+                res["known_findings"].append("nfc-composes-escape-letter: value LF+U+0301 is written as \\n + U+0301 and read back as backslash + U+0144 (NFC runs on the escaped text)")
+            else:
+                res["verdict"] = "violated"
+                res["detail"] = text
+        from octave_mcp.core.parser import parse
+        from octave_mcp.mcp.write import WriteTool
+
+        d = tempfile.mkdtemp()
+        pth = os.path.join(d, "x.oct.md")
+        try:
+            with open(pth, "w") as f:
+                f.write("===D===\nK::1\n===END===\n")
+            r = asyncio.run(WriteTool().execute(target_path=pth, changes={"K": "a\rb"}))
+            with open(pth, encoding="utf-8") as f:
+                got = parse(f.read()).sections[0].value
+            if r.get("status") == "success" and got != "a\rb":
+                if kf_active(PROP, "raw-cr-through-file"):
+                    res["known_findings"].append("raw-cr-through-file: octave_write(changes={K: 'a\\rb'}) stores a raw CR; reading the file back (text mode) yields 'a\\nb'")
+                else:
+                    res["verdict"] = "violated"
+                    res["detail"] = f"CR value read back from file as {got!r}"
+        finally:
+            try:
+                os.remove(pth)
+                os.rmdir(d)
+            except OSError:
+                pass
+        return res
+
+    return {"id": "W.listed-finding-witnesses", "engine": "xh", "timeout": 120, "bound": "two concrete witnesses", "functions": ["emitter.emit_value", "lexer.tokenize (NFC then un-escape)", "mcp.write.WriteTool.execute"], "run": run}
+
+
 def model_validation_ob():
     def run(tier):
         n, bad = validate_bare_model()
@@ -832,6 +876,7 @@ def obligations(tier):
     n3 = 4 if thorough else 3
     obs = [
         model_validation_ob(),
+        witness_ob(),
         rx_ob(
             PROP,
             "RX.bare-arms-relex",
